@@ -4,16 +4,48 @@ import json, os
 VERIF = os.path.dirname(os.path.dirname(os.path.abspath(__file__)))
 BASE = "cd /repo && /venv/bin/python -m pytest -ra -q -p no:cacheprovider --timeout=900 --continue-on-collection-errors"
 
+T = "Lean 4 proof (model + theorems) + translator + differential correspondence"
 CLAIMED = {
- "C07": ("proof", "§6 C07", "Lean ∀-theorem C07_order_decides (all six orders, every valid date, every padding, every preference/strictness/reference time) over the stage-2 model of dateparser.parser._parser; model tied to /repo by the translator (date_order tables, directive lists) and by a differential run through DateDataParser.get_date_data; oracle = the fields written.",
-         "Lean kernel; stage-1 token classification (CPython _strptime directives on 1–4 digit tokens) and the string→token glue are modelled and validated by correspondence, not proved; known finding: '-'-separated year-last dates whose year spells a negative UTC offset.",
-         "Lean 4 proof (two-stage parser model) + translator + differential correspondence"),
- "C08": ("proof", "§6 C08", "Lean ∀-theorems: C08_lastday/C08_month_lengths (every year 1..9999 × month, century rule), C08_day/C08_month (the two completion functions return exactly first / last / clamped-current), C08_full (preferences never alter a date that states day and month, for every token list), C08_period; tie: translator + differential run (absolute and custom-format parsers) against calendar.monthrange.",
-         "Lean kernel; CPython datetime field checks and the English month-name glue are modelled, validated by correspondence; custom-format 'current' reads the system clock (bracketed).",
-         "Lean 4 proof + translator + differential correspondence"),
- "C10": ("proof", "§6 C10", "Lean ∀-theorems over every token list: C10_filter (strictness/REQUIRE_PARTS either leaves the result unchanged or turns it into the missing-fields error), C10_require, C10_clock_free (strict result independent of the reference time); relational correspondence on the library over corpus + generated partial dates.",
-         "Lean kernel; language translation is outside the theorem (token lists are universally quantified); parse_with_formats strictness is read from the source by the translator.",
-         "Lean 4 proof + relational differential check"),
+ "C01": ("proof", "§6 C01", "Lean ∀-theorems over the stage-2 model of dateparser.parser._parser for every rendering of the fixed family (ISO date / date-time / fraction, RFC-2822, English month forms, AM/PM): every valid date 1..9999, every PREFER_* value, strictness and reference time; C01_timestamp: exact instant arithmetic of the epoch parser for every second count and sub-second part; calendar round-trip lemmas (ofOrd/toOrd, micros). Tie: constants regenerated from /repo + differential run through dateparser.parse / get_date_data against the rendered datetime.",
+         "Lean kernel (axioms propext, Classical.choice, Quot.sound). The English string→token glue (sanitize, translate, tokenizer, directive classification) and time_parser on the assembled clock text are modelled and validated by correspondence on every sampled date, not proved ∀; IANA zones for the epoch form use pytz as oracle (model parametric).", T),
+ "C02": ("proof", "§6 C02", "Lean escape analysis of the orchestrator over the `except` tuples extracted from /repo (C02_catch_facts is a generated fact re-checked on every run; C02_runParser_escape, C02_localeParse_escape, C02_welldef, C04_overflow) + structured fuzz (strings × bounded settings pool × languages × date_formats, invalid-configuration stream) on the library with the model run on the same cases.",
+         "Lean kernel; raise-sets of the individual parsers are tied to the model by correspondence (value and error kind compared), not proved; language layer executable model only.", T),
+ "C03": ("proof", "§6 C03", "Lean refinement theorem for the Dictionary class caches over every history of accesses, settings keys, locales and CACHE_SIZE_LIMIT values (C03_cache_refine, C03_cache_history; eviction shape read from the source), DATE_ORDER restore theorem; history exploration on the library: every call of 2–10-call histories (plus targeted shared-settings-value histories with long-lived parser instances) is compared with the same call alone in a fresh interpreter, several PYTHONHASHSEED values.",
+         "Lean kernel; md5 injective on settings renderings; the state machine models the cache and DATE_ORDER protocols — other lazily built per-locale attributes are covered by the history exploration only.", T),
+ "C04": ("proof", "§6 C04", "Lean ∀-theorems: dateutil's relativedelta year/month arithmetic (modelled literally) equals month-index arithmetic with day clamp for every base and unbounded counts (C04_months_spec, shiftMonths_spec), additivity with the exact linear part (C04_additive), overflow ⇒ None through the extracted except tuple (C04_overflow), period and direction rules; differential run against own calendar arithmetic incl. bracketed implicit-now cases.",
+         "Lean kernel; decimals: exact rationals in the model, Python float rounding not modelled (only binary-exact decimals checked) — partial; phrase→kwargs regex glue by correspondence.", T),
+ "C05": ("proof", "§6 C05", "Composition: Lean ∀-theorems for the English text the names translate to (C01_named_month, C09_steps) + exhaustive walk of every single-meaning month/weekday name of all 205 languages and 299 locales (NORMALIZE on/off) through the real library, with the Lean model run on a sample of the same rows.",
+         "Lean kernel for the ∀ core; the per-name translation is decided by the exhaustive walk on the implementation (and the executable model), not by a kernel proof; 179 rows recorded as known findings.", "Lean 4 proof (core) + exhaustive table walk + correspondence"),
+ "C06": ("proof", "§6 C06", "Composition: C04 ∀-theorems (any reference time) + exhaustive walk of every single-meaning fixed relative phrase and plainly substitutable counted pattern of every language/locale × counts × NORMALIZE against its English canon on the real library, model on a sample.",
+         "as C05; 83 rows recorded as known findings.", "Lean 4 proof (core) + exhaustive table walk + correspondence"),
+ "C07": ("proof", "§6 C07", "Lean ∀-theorem C07_order_decides (all six orders, every valid date, every padding, every preference/strictness/reference time) over the stage-2 model; differential run incl. every language and locale as the source of the default order; oracle = the fields written.",
+         "Lean kernel; stage-1 token classification and the string→token glue are modelled and validated by correspondence; known finding: '-'-separated year-last dates whose year spells a negative UTC offset.", T),
+ "C08": ("proof", "§6 C08", "Lean ∀-theorems: C08_lastday/C08_month_lengths (every year 1..9999 × month), C08_day/C08_month (first / last / clamped-current), C08_full (preferences never alter a date that states day and month, for every token list), C08_period; differential run (absolute and custom-format parsers) against calendar.monthrange.",
+         "Lean kernel; CPython datetime field checks modelled; custom-format 'current' reads the system clock.", T),
+ "C09": ("proof", "§6 C09", "Lean: C09_steps (nearest weekday in the preferred direction, all 7×7×3 cases symbolically), C09_weekday_partial (∀ reference times, shift inside the reference month) and C09_weekday_counterexample (the model reproduces the recorded defect); differential run over every reference date of a 4-year window, time-only forms under fixed-offset TIMEZONE, month/day without year, two-digit years 1970..2067, against own nearest-occurrence arithmetic.",
+         "Lean kernel; three recorded findings (month preference after the shift; PREFER_MONTH_OF_YEAR on weekday/time-only; time-only candidate day under non-UTC TIMEZONE), each matched on the exact wrong value the defect produces.", T),
+ "C10": ("proof", "§6 C10", "Lean ∀-theorems over every token list: C10_filter, C10_require, C10_clock_free; C10_formats for the custom-format parser (depends on a generated fact about the source); relational check on the library over corpus + generated partial dates.",
+         "Lean kernel; language translation is outside the theorem (token lists universally quantified).", "Lean 4 proof + relational differential check"),
+ "C11": ("proof", "§6 C11", "Lean: C11_attach / C11_naive (∀ datetimes and offsets), finite walk theorems c11_abbrev / c11_offsets over the regenerated 773-entry table (first-match-wins evaluated), C16_tz; exhaustive run of every offset spelling and abbreviation through dateparser.parse incl. pickle/copy round trips.",
+         "Lean kernel + native_decide (compiler) for the table walks; pickling/copying checked on the library only; 4 abbreviations recorded as known findings.", "Lean 4 proof + finite table walk (native_decide) + exhaustive correspondence"),
+ "C12": ("proof", "§6 C12", "Lean ∀-theorems on fixed offsets: astimezone_instant, C12_instant_fixed (instant preserved through TIMEZONE / TO_TIMEZONE, string zone), C12_aware; differential run over zone pairs (IANA via pytz oracle), four parsers × three awareness values, TIMEZONE='local' under several TZ environments.",
+         "Lean kernel; IANA zones are parameters of the model (pytz is the oracle) — partial for that clause.", T),
+ "C13": ("proof", "§6 C13", "Lean ∀-theorems about the orchestrator: C13_first, C13_member, C13_default, C13_reparse; compositional laws checked on the library (multi-language run vs single-language runs, DEFAULT_LANGUAGES, region vs locale, full autodetection reproducibility).",
+         "Lean kernel; per-locale parse is a function of its arguments (that is C03); loader ordering modelled in the driver.", T),
+ "C14": ("proof", "§6 C14", "Lean: C10_formats, C08_day/C08_month (completion of what a format cannot express) + executable strptime model tied by correspondence; differential run over a 40-format family × datetimes 1900..2100, format-wins cases, localized month names of every language.",
+         "Lean kernel; the round trip strptime∘strftime per format is validated by correspondence (model = CPython on every case), not yet proved ∀; %z formats outside the family.", T),
+ "C15": ("proof", "§6 C15", "Lean: the numeric spellings reduce to C07_order_decides / C01_iso_date (default order, four-digit year pinned first); differential run of JalaliCalendar / HijriCalendar against convertdate / hijridate over years × months × days × spellings (Persian digits, every month-name variant, weekday variants, spelled-out days, time suffix).",
+         "converter correctness itself is a parameter (third-party); to_latin table walk by correspondence.", "Lean 4 proof (core) + differential correspondence"),
+ "C16": ("proof", "§6 C16", "Finite Lean theorems regenerated on every run: C16_modules (205 language modules = model of the generator on CLDR ⊕ supplementary ⊕ base), C16_tz (pickled table = build_tz_offsets model incl. regex rewriting), C16_index; plus the repo's own generator run on a scratch copy (byte comparison).",
+         "native_decide (Lean compiler) for the finite theorems; YAML-subset loader (self-validating).", "translation validation decided by finite Lean theorems (native_decide)"),
+ "C17": ("proof", "§6 C17", "Lean: result well-formedness of the per-item parse (C02_welldef) + fuzz of search_dates over every language and autodetection with the four contract predicates (total, well-formed, in text, in order, single requested language).",
+         "the search layer itself (sentence splitting, alignment, chunking) is decided by the fuzz on the implementation; its Lean model is not part of this revision.", "Lean 4 proof (core) + contract fuzz"),
+ "C18": ("proof", "§6 C18", "Lean ∀-theorems: C18_numerals (every string, every Nd block; finite block table regenerated), C18_ws_expand / C18_ws_pad / C18_spaces (whitespace rewrite family shares one normal form); relational run on the library over corpus + generated dates × rewrites × Nd blocks.",
+         "Lean kernel; the proof-facing normal forms are tied to the regex-driven pipeline by correspondence; spacing-sensitive strings excluded and counted.", T),
+ "C19": ("proof", "§6 C19", "Lean ∀-theorems on the cache state machine (C19_recover, C19_total, C19_again, C19_healthy; C19_kinds is a generated fact over the extracted except clause) + pickle.load on prefixes + real imports on crash points against scratch package copies.",
+         "Lean kernel; pickle/unpickle are parameters with unpickle∘pickle = id; 'no strict prefix unpickles' checked on the enumerated lengths.", "Lean 4 proof (state machine) + crash-point enumeration"),
+ "C20": ("proof", "§6 C20", "Lean interleaving model of the shared Settings object: C20_same_config, C20_window, C20_counterexample, C20_same_locale_counterexample; exhaustive single-preemption exploration on the library (every executed line of A, real second thread) + cold-process points.",
+         "GIL-atomic bytecodes; one preemption per schedule; sub-bytecode and multi-switch schedules not exhibited — partial; divergences recorded per shared site.", "Lean 4 proof (interleaving model) + exhaustive single-preemption exploration"),
 }
 
 def main():
